@@ -85,6 +85,18 @@ def directed(rng):
                          "new szdd", "open i0 f.sz_", "extract i0 h0 - o", "close i0 h0", "destroy i0"], dict(family="szdd.qbasic-match-ahead-of-start", mpos=mpos)))
             kw = b"KWAJ\x88\xf0\x27\xd1" + struct.pack("<HHH", 2, 14, 0) + body
             out.append(([f"file f.kwj {kw.hex()}", "new kwaj", "open i0 f.kwj", "extract i0 h0 - o", "close i0 h0", "destroy i0"], dict(family="kwaj.lzss-match-ahead-of-start", mpos=mpos)))
+    # Quantum / LZX streams that end early: the decoder wants more bits than the (odd- or even-sized) input holds;
+    # whatever it reads past the end must be the reader's padding, never stale buffer contents
+    for comp in (2 | 10 << 8, 2 | 15 << 8, 3 | 15 << 8, 3 | 17 << 8):
+        for plen in (1, 2, 3, 4, 5, 6, 7, 8, 9, 16, 17):
+            payload = bytes(rng.randrange(256) for _ in range(plen))
+            for flen in (7, 12, 100):
+                try:
+                    cab, _ = minicab.build([(comp, [(payload, min(flen, 32768))])], [dict(name=b"q.bin", length=flen, offset=0, folder=0)])
+                except Exception:
+                    continue
+                out.append(([f"file x.cab {cab.hex()}", "new cab", f"param i0 DECOMPBUF {rng.choice([4, 5, 4096])}", "open i0 x.cab", "extract i0 h0 0 o", "close i0 h0", "destroy i0"],
+                            dict(family="cab.stream-ends-early", comp=comp & 15, plen=plen)))
     # a member declared longer than what its folder's data blocks hold (the declared end still inside
     # num_blocks * 32768, so extract()'s up-front test lets it through): the decoder runs out of blocks
     # in the middle of the member; whatever it then hands to write() must not come from fresh memory
